@@ -632,7 +632,11 @@ impl Model {
                                 }
                                 stack.push((target.clone(), depth))
                             },
-                            None => {},
+                            None => {
+                                if recorded_dir {
+                                    return Err("followed link to a directory that no longer exists");
+                                }
+                            },
                         }
                     } else {
                         out.push(p.clone());
